@@ -1,2 +1,92 @@
-/- placeholder driver for C07: replaced when the check for C07 is built -/
-def main : IO Unit := IO.println "not-built"
+import CashewsVerif.Driver.Proto
+import CashewsVerif.Model.SingleFlight
+/- Driver for C07: replays a recorded schedule (bursts of call / body-step / cancel actions) on the
+single-flight model and prints the observable state after each burst.
+
+  case caching=<0|1> callers=<c,c,..> keys=<k,k,..>          -> ok
+  do <item> ...                                              -> en=.. callers=.. keys=.. joined=..
+       item:  c<caller>:<key>:<n>:r<v> | c<caller>:<key>:<n>:e<cls>     call (script used if it starts an execution)
+              x<exec>                                                    the body of <exec> passes a suspension point
+              k<caller>                                                  cancel
+  callers=  per declared caller  N | W | R<v> | E<cls> | C
+  keys=     per declared key     <key>:<executions in flight>:<bodies running>:<bodies started>:<executions created>
+-/
+open CashewsVerif CashewsVerif.Proto CashewsVerif.SingleFlight
+
+structure St where
+  s : SfSt
+  callers : List Nat
+  keys : List Nat
+
+def dropS (s : String) (n : Nat) : String := String.ofList (s.toList.drop n)
+
+def parseNats? (s : String) : Option (List Nat) :=
+  if s = "" then some [] else allSome ((s.splitOn ",").map String.toNat?)
+
+def parseOutcome? (s : String) : Option Outcome :=
+  if s.startsWith "r" then (dropS s 1).toNat?.map Outcome.ret
+  else if s.startsWith "e" then (dropS s 1).toNat?.map Outcome.exc
+  else none
+
+def parseItem? (w : String) : Option Act :=
+  if w.startsWith "c" then
+    match (dropS w 1).splitOn ":" with
+    | [c, k, n, o] => do pure (.call (← c.toNat?) (← k.toNat?) (← n.toNat?) (← parseOutcome? o))
+    | _ => none
+  else if w.startsWith "x" then (dropS w 1).toNat?.map Act.bodyStep
+  else if w.startsWith "k" then (dropS w 1).toNat?.map Act.cancel
+  else none
+
+def showCaller (s : SfSt) (c : Nat) : String :=
+  match s.callers c with
+  | none => "N"
+  | some ⟨_, .waiting⟩ => "W"
+  | some ⟨_, .got (.ret v)⟩ => s!"R{v}"
+  | some ⟨_, .got (.exc e)⟩ => s!"E{e}"
+  | some ⟨_, .cancelled⟩ => "C"
+
+def showJoined (s : SfSt) (c : Nat) : String :=
+  match s.callers c with
+  | some ⟨some e, _⟩ => toString e
+  | _ => "-"
+
+def execsOfKey (s : SfSt) (key : Nat) : Nat :=
+  (s.created.filter fun e => match s.execs e with
+    | some x => x.key == key
+    | none => false).length
+
+def showKey (s : SfSt) (k : Nat) : String :=
+  s!"{k}:{inFlightCount s k}:{bodyRunningCount s k}:{bodyStarts s k}:{execsOfKey s k}"
+
+/-- apply the items one by one, remembering whether each was enabled -/
+def runItems (s : SfSt) : List Act → SfSt × List Bool
+  | [] => (s, [])
+  | a :: r =>
+    let en := enabled s a
+    let (s', ens) := runItems (step s a) r
+    (s', en :: ens)
+
+def fieldOf (pfx : String) (ws : List String) : Option String :=
+  (ws.find? (·.startsWith pfx)).map (dropS · pfx.length)
+
+def stepLine (st : St) (line : String) : St × String :=
+  match words line with
+  | "case" :: ws =>
+    match fieldOf "caching=" ws, (fieldOf "callers=" ws).bind parseNats?, (fieldOf "keys=" ws).bind parseNats? with
+    | some b, some cs, some ks =>
+      if b = "0" ∨ b = "1" then ({ s := init (b = "1"), callers := cs, keys := ks }, "ok") else (st, "bad-op")
+    | _, _, _ => (st, "bad-op")
+  | "do" :: ws =>
+    match allSome (ws.map parseItem?) with
+    | none => (st, "bad-op")
+    | some items =>
+      let (s1, ens) := runItems st.s items
+      let s2 := settle s1                      -- = macroStep st.s items (runItems only adds the enabled flags)
+      let en := "".intercalate (ens.map fun b => if b then "1" else "0")
+      let out := s!"en={en} callers=" ++ ",".intercalate (st.callers.map (showCaller s2))
+        ++ " keys=" ++ ";".intercalate (st.keys.map (showKey s2))
+        ++ " joined=" ++ ",".intercalate (st.callers.map (showJoined s2))
+      ({ st with s := s2 }, out)
+  | _ => (st, "bad-op")
+
+def main : IO Unit := mainLoop stepLine { s := init false, callers := [], keys := [] }
